@@ -63,6 +63,7 @@ let rec parse_op (s : string) : op =
   | ["wiw"; i; a; sep] -> OWithWord (num i, sarg a, bytes_of_hex sep)
   | ["waw"; a; sep] -> OWithWord (nolimit, sarg a, bytes_of_hex sep)
   | ["wpw"; a; sep] -> OWithWord (N0, sarg a, bytes_of_hex sep)
+  | ["ind"; n; ch] -> OIndented (num n, num ch)
   | ["wsfh"; ch] -> OWithSuffixCh (num ch)
   | ["wpfh"; ch] -> OWithPrefixCh (num ch)
   | ["wosfi"; a; m] -> OWithoutSuffixSI (sarg a, num m)
